@@ -1643,10 +1643,16 @@ class ListNode(SyntaxNodeBase):
                 "\n" in front and ListNode._COMMENT_LINE.match(last_line)
             ):
                 front += "\n"
-            if front[-1] == "\n":
-                lead = len(text) - len(text.lstrip(" "))
-                if lead < constants.BLANK_SPACE_CONTINUE:
-                    return front + " " * (constants.BLANK_SPACE_CONTINUE - lead) + text
+            if "\n" in front:
+                # blanks that already stand behind the line break (the indentation of a comment line
+                # that followed the last entry) count towards the indentation of the new entry
+                tail = front.rsplit("\n", 1)[-1]
+                if not tail.strip(" "):
+                    lead = len(tail) + len(text) - len(text.lstrip(" "))
+                    if lead < constants.BLANK_SPACE_CONTINUE:
+                        return (
+                            front + " " * (constants.BLANK_SPACE_CONTINUE - lead) + text
+                        )
         return front + text
 
     _COMMENT_LINE = re.compile(r" {0,4}[cC]( |$)")
